@@ -413,7 +413,9 @@ CHECKS["C09"] = {
     ],
     "thorough": [
         {"harness": "VerifC09Aggregate", "params": {"n": [3, 4, 5, 6, 7], "nv": [1, 2], "m": [2, 3, 4, 5, 6]}, "redirects": _C9R, "cross": True},
-        {"harness": "VerifC09Att", "params": {"n": [4, 5, 7], "idx": [0, 1, 2, 3, 4], "prime": [0, 1]}, "redirects": _C9R, "cross": True},
+        # idx = which of the threshold-many partials carries the ValidatorIndex (0 none): at most the threshold (3 for n=4, 4 for n=5, 5 for n=7)
+        {"harness": "VerifC09Att", "params": {"n": 4, "idx": [0, 1, 2, 3], "prime": [0, 1]}, "redirects": _C9R, "cross": True},
+        {"harness": "VerifC09Att", "params": {"n": [5, 7], "idx": [0, 1, 2, 3, 4], "prime": [0, 1]}, "redirects": _C9R, "cross": True},
         {"harness": "VerifC09Verifier", "params": {"kind": [0, 1], "pk": [0, 1]}, "cross": True},
     ],
     "bounds": {
